@@ -4,6 +4,7 @@ import (
 	"encoding/binary"
 	"fmt"
 	"math/big"
+	"os"
 	"sort"
 	"time"
 
@@ -53,8 +54,22 @@ var sumtreeKeys = func() [][]byte {
 	for i := 0; i < 40; i++ {
 		ks = append(ks, []byte{'k', byte(i * 5)})
 	}
+	// a family closed under prefixes (every string over {n,o} of length 1..4): with a small fan-out the keys of
+	// neighbouring internal nodes are prefixes of one another on every level
+	sumtreeNestedBase = len(ks)
+	for l := 1; l <= 4; l++ {
+		for v := 0; v < 1<<uint(l); v++ {
+			b := make([]byte, l)
+			for j := 0; j < l; j++ {
+				b[j] = 'n' + byte((v>>uint(l-1-j))&1)
+			}
+			ks = append(ks, b)
+		}
+	}
 	return ks
 }()
+
+var sumtreeNestedBase int
 
 // sumtreeKey maps a step argument to a key: small values index the alphabet, values from 1000 up name the
 // dense run of 3-byte keys used by the wide-node configurations (enough distinct keys to overflow a node of
@@ -145,6 +160,177 @@ func (SumtreeEngine) Generate(r *simcore.RNG, tier string, idx int) *simcore.Pla
 	}
 	p.Config["fresh"] = int64(r.Intn(2)) // 1: NewTree per operation (as lockup does)
 	nkeys := []int{4, 8, 17, len(sumtreeKeys)}[r.Intn(4)]
+	base := 0
+	if r.Chance(0.2) {
+		// only the prefix-closed family, small fan-out
+		base, nkeys = sumtreeNestedBase, len(sumtreeKeys)-sumtreeNestedBase
+		p.Config["m"] = r.Range(2, 5)
+	}
+	structured := r.Chance(0.12) || os.Getenv("VERIF_C16_STRUCT") != "" // (the variable forces the scenario, for diagnosis)
+	if structured {
+		base, nkeys = sumtreeNestedBase, len(sumtreeKeys)-sumtreeNestedBase
+	}
+	if structured {
+		// structure-aware merge scenario: after ascending inserts every node but the last holds m/2+1 children, so the
+		// node boundaries are known. One node is emptied (largest child first) after its left neighbour and the nodes
+		// two and three to its right have been thinned to one or two children: a merge with the right sibling is due,
+		// and the sibling's key often extends the emptied node's key (all extensions of one prefix are in the key set).
+		m := []int64{4, 5, 6, 7, 8, 4, 6}[r.Intn(7)]
+		p.Config["m"] = m
+		c := int(m/2 + 1)
+		// key set: a prefix pi ("no" or "on") with its extensions, padded on the left with just as many smaller keys
+		// that pi becomes the first child of a node, and followed by larger keys that do not extend pi
+		pi := []string{"no", "on"}[r.Intn(2)]
+		var smaller, desc, larger []int
+		for i := 0; i < nkeys; i++ {
+			k := string(sumtreeKeys[base+i])
+			switch {
+			case len(k) >= 2 && k[:2] == pi:
+				if k == pi || r.Chance(0.85) {
+					desc = append(desc, base+i)
+				}
+			case k < pi:
+				smaller = append(smaller, base+i)
+			default:
+				larger = append(larger, base+i)
+			}
+		}
+		pad := c - 1
+		if r.Chance(0.4) {
+			pad += c
+		}
+		for len(smaller) > pad {
+			x := r.Intn(len(smaller))
+			smaller = append(smaller[:x], smaller[x+1:]...)
+		}
+		for want := int(r.Range(2, int64(2*c))); len(larger) > want; {
+			x := r.Intn(len(larger))
+			larger = append(larger[:x], larger[x+1:]...)
+		}
+		fam := append(append(append([]int{}, smaller...), desc...), larger...)
+		sort.Slice(fam, func(a, b int) bool { return cmpBytes(sumtreeKeys[fam[a]], sumtreeKeys[fam[b]]) < 0 })
+		if max := c - 1 + (int(m)-1)*c; len(fam) > max { // at most m nodes on the first level: one root above them
+			fam = fam[:max]
+		}
+		amt := func() string { return fmt.Sprint(r.Range(1, 1000000)) }
+		for _, k := range fam {
+			p.Steps = append(p.Steps, simcore.Step{Op: "inc", A: []int64{int64(k)}, S: []string{amt()}})
+		}
+		// node j >= 1 holds fam[c-1+(j-1)c : c-1+jc); node 0 holds the empty key and fam[:c-1]
+		bounds := func(j int) (int, int) {
+			if j == 0 {
+				return 0, c - 1
+			}
+			return c - 1 + (j-1)*c, c - 1 + j*c
+		}
+		nodes := 1 + (len(fam)-(c-1)+c-1)/c
+		thin := func(j, keep int) {
+			lo, hi := bounds(j)
+			if j == 0 {
+				keep-- // the empty key stays
+			}
+			for x := hi - 1; x >= lo+keep && x >= 0; x-- {
+				if x < len(fam) {
+					p.Steps = append(p.Steps, simcore.Step{Op: "rm", A: []int64{int64(fam[x])}, S: []string{"0"}})
+				}
+			}
+		}
+		if nodes >= 3 {
+			j := 1 + r.Intn(nodes-2)
+			// prefer a node whose key is a proper prefix of its right neighbour's key
+			var cand []int
+			for x := 1; x+1 < nodes; x++ {
+				lo, _ := bounds(x)
+				lo2, _ := bounds(x + 1)
+				if lo2 < len(fam) {
+					a, b := sumtreeKeys[fam[lo]], sumtreeKeys[fam[lo2]]
+					if len(b) > len(a) && string(b[:len(a)]) == string(a) {
+						cand = append(cand, x)
+					}
+				}
+			}
+			if len(cand) > 0 && r.Chance(0.8) {
+				j = cand[r.Intn(len(cand))]
+			}
+			if os.Getenv("VERIF_C16_STRUCT") == "2" {
+				var names []string
+				for _, k := range fam {
+					names = append(names, string(sumtreeKeys[k]))
+				}
+				fmt.Fprintf(os.Stderr, "STRUCT m=%d c=%d nodes=%d j=%d cand=%v fam=%v\n", m, c, nodes, j, cand, names)
+			}
+			thin(j-1, 1+r.Intn(2))
+			if r.Chance(0.8) {
+				thin(j+2, 1+r.Intn(2))
+			}
+			if r.Chance(0.5) {
+				thin(j+3, 1+r.Intn(2))
+			}
+			thin(j, 0)
+		}
+		for e := int(r.Range(2, 8)); e > 0; e-- {
+			p.Steps = append(p.Steps, simcore.Step{Op: []string{"set", "inc", "dec", "inc"}[r.Intn(4)], A: []int64{int64(fam[r.Intn(len(fam))])}, S: []string{amt()}})
+		}
+		return p
+	}
+	if base > 0 && r.Chance(0.6) {
+		// range sweeps over the prefix-closed family: every key is inserted in ascending order (all nodes but the last
+		// stay half full), then short runs of neighbouring keys are removed from the largest down - a node is emptied
+		// without ever losing its first child first, while both of its neighbours are still there - and some are re-inserted
+		p.Config["m"] = []int64{3, 5, 3, 5, 2, 4, 7}[r.Intn(7)]
+		sorted := make([]int, nkeys)
+		for i := range sorted {
+			sorted[i] = base + i
+		}
+		if r.Chance(0.7) {
+			// a small tree (two levels): a random subset of the family
+			for a := len(sorted) - 1; a > 0; a-- {
+				b := r.Intn(a + 1)
+				sorted[a], sorted[b] = sorted[b], sorted[a]
+			}
+			nkeys = int(r.Range(6, 16))
+			sorted = sorted[:nkeys]
+		}
+		sort.Slice(sorted, func(a, b int) bool { return cmpBytes(sumtreeKeys[sorted[a]], sumtreeKeys[sorted[b]]) < 0 })
+		amt := func() string { return fmt.Sprint(r.Range(1, 1000000)) }
+		for _, k := range sorted {
+			if r.Chance(0.9) {
+				p.Steps = append(p.Steps, simcore.Step{Op: "inc", A: []int64{int64(k)}, S: []string{amt()}})
+			}
+		}
+		rounds := int(r.Range(3, 9))
+		rm := func(j int) {
+			if j >= 0 && j < nkeys {
+				p.Steps = append(p.Steps, simcore.Step{Op: "rm", A: []int64{int64(sorted[j])}, S: []string{"0"}})
+			}
+		}
+		for q := 0; q < rounds; q++ {
+			// thin out what lies to the right (beyond a gap) and to the left of a short run, then remove the run itself:
+			// the node it empties then has small neighbours on both sides (a merge is due) while the keys in the gap stay
+			i, l := r.Intn(nkeys), int(r.Range(1, 5))
+			gap, rl, ll := int(r.Range(1, 7)), int(r.Range(0, 3)), int(r.Range(0, 3))
+			for j := i + l + gap + rl - 1; j >= i+l+gap; j-- {
+				rm(j)
+			}
+			for j := i - 1; j >= i-ll; j-- {
+				rm(j)
+			}
+			for j := i + l - 1; j >= i; j-- {
+				rm(j)
+			}
+			for e := int(r.Range(0, 3)); e > 0; e-- {
+				p.Steps = append(p.Steps, simcore.Step{Op: []string{"set", "inc", "dec"}[r.Intn(3)], A: []int64{int64(sorted[r.Intn(nkeys)])}, S: []string{amt()}})
+			}
+			if r.Chance(0.3) {
+				for _, k := range sorted { // refill in ascending order
+					if r.Chance(0.7) {
+						p.Steps = append(p.Steps, simcore.Step{Op: "set", A: []int64{int64(k)}, S: []string{amt()}})
+					}
+				}
+			}
+		}
+		return p
+	}
 	faults := r.Chance(0.5)
 	n := int(r.Range(5, 80))
 	if tier == "thorough" && r.Chance(0.3) {
@@ -154,11 +340,14 @@ func (SumtreeEngine) Generate(r *simcore.RNG, tier string, idx int) *simcore.Pla
 	// alphabet indices in byte order, for ordered removal sweeps
 	order := make([]int, nkeys)
 	for i := range order {
-		order[i] = i
+		order[i] = base + i
 	}
 	sort.Slice(order, func(a, b int) bool { return cmpBytes(sumtreeKeys[order[a]], sumtreeKeys[order[b]]) < 0 })
 	sweep := r.Chance(0.5) // remove phases walk the keys from the largest down (empties nodes without touching first children early)
 	sweepPos := nkeys - 1
+	if sweep && r.Chance(0.5) {
+		sweepPos = r.Intn(nkeys) // ... or from somewhere in the middle down, so that nodes are emptied while their right neighbours stay
+	}
 	for i := 0; i < n; i++ {
 		phaseRemove := (i*3/n)%2 == 1
 		w := []int{40, 20, 10, 15, 1}
@@ -166,7 +355,7 @@ func (SumtreeEngine) Generate(r *simcore.RNG, tier string, idx int) *simcore.Pla
 			w = []int{10, 8, 8, 60, 1}
 		}
 		st := simcore.Step{}
-		k := int64(r.Intn(nkeys))
+		k := int64(base + r.Intn(nkeys))
 		var amt *big.Int
 		switch r.Intn(4) {
 		case 0:
